@@ -153,10 +153,9 @@ def load_performance_midi(
             if isinstance(msg, mido.MetaMessage):
                 if msg.type == "set_tempo":
                     mpq = msg.tempo
-                    if (
-                        tempo_changes[-1][1] != mpq
-                    ):  # only add new tempo if it's different from the last one
-                        tempo_changes.append((ttick, mpq))
+                    # (the last entry of the list may belong to another track
+                    # and a later tick, so every tempo event is recorded)
+                    tempo_changes.append((ttick, mpq))
                     time_conversion_factor = mpq / (ppq * 10**6)
                 elif msg.type == "time_signature":
                     time_signatures.append(
@@ -292,6 +291,11 @@ def load_performance_midi(
             )
 
             pps.append(pp)
+
+    # the tempo changes were collected track by track: put them in the order
+    # in which they take effect (stable, so that the default tempo at tick 0
+    # comes before a tempo set at tick 0)
+    tempo_changes.sort(key=lambda x: x[0])
 
     # adjust timing of events based on tempo changes
     for pp in pps:
